@@ -273,16 +273,143 @@ def check_config(rep, prog):
         rep.violate("C17.R-ctor", "R-ctor|from_rays", fr.where(), "from_rays does not return through BezierSpline::new", config=cfg)
 
 
+def algebra_rules(rep, prog):
+    """The algebraic clauses, decided as polynomial identities in t and the control points (scalars; the code is generic
+    over Affine/Linear and is interpreted at T = f32):
+      E-agree    for 0 < t < 1, eval (De Casteljau) = fast_eval (Horner) = the Bernstein form
+                 sum C(3,k) t^k (1-t)^(3-k) p_k  (so the value is a convex combination: inside the bounding box)
+      E-tangent  tangent(t) = d/dt of the Bernstein form
+      S-seg      BezierSpline::segment(t): for every segment count 1..4 and every position of t (floor(t*n) = j for
+                 j = 0..n-1, and t = 1 exactly) it returns control points 3i..3i+3 and a local parameter u with
+                 i + u = t*n as an identity, i = j inside the curve and i = n-1, u = 1 at the end: the spline passes
+                 through every third control point and joins are continuous
+      S-eval     BezierSpline::eval/tangent evaluate the cubic of exactly that segment at exactly that parameter"""
+    from fractions import Fraction
+    from . import symalg as S, poly as PL
+    cfg = prog.config
+    CB = SP + "CubicBezier"
+    t = S.sym("t")
+
+    def inside(op, a, b):
+        if a == t and b == ("f", 0.0):
+            return {"Le": False, "Lt": False, "Gt": True, "Ge": True, "Eq": False, "Ne": True}.get(op)
+        if a == t and b == ("f", 1.0):
+            return {"Le": True, "Lt": True, "Gt": False, "Ge": False, "Eq": False, "Ne": True}.get(op)
+        return None
+
+    def req(ok, rule, key, where, what):
+        rep.inst("C17." + rule, "%s: %s" % (what, "holds" if ok else "FAILS"), config=cfg)
+        if not ok:
+            rep.violate("C17." + rule, "%s|%s" % (rule, key), where, "%s does not hold as a polynomial identity" % what, config=cfg)
+    cb = ("adt", CB, "CubicBezier", [("array", [S.sym("p%d" % i) for i in range(4)])])
+    polys = {}
+    for fn in ("eval", "fast_eval", "tangent"):
+        b = prog.body(SP + "CubicBezier::<T>::" + fn)
+        it = S.interp(prog, oracle=inside, models={"$f32>::clamp": lambda it_, args, c, d: A.deref_all(it_, args[0])})   # clamp is the identity inside (0, 1)
+        try:
+            polys[fn] = S.to_poly(A.deref_all(it, it.call_body(b, [S.ref_to(A.copy_val(cb)), t], env={"T": "f32"})))
+        except (A.Undecided, A.Panic, S.NotPolynomial) as e:
+            raise common.Infra("C17.E-agree: CubicBezier::%s could not be evaluated symbolically (%s)" % (fn, e))
+    T1 = {("t",): Fraction(1)}
+    U1 = {(): Fraction(1), ("t",): Fraction(-1)}
+
+    def ppow(p_, n):
+        r = {(): Fraction(1)}
+        for _ in range(n):
+            r = PL.pmul(r, p_)
+        return r
+    bern = {}
+    for k, c in enumerate((1, 3, 3, 1)):
+        bern = PL.padd(bern, PL.pmul({("p%d" % k,): Fraction(c)}, PL.pmul(ppow(T1, k), ppow(U1, 3 - k))))
+    deriv = {}
+    for mono, c in bern.items():
+        n = mono.count("t")
+        if n:
+            lst = list(mono)
+            lst.remove("t")
+            deriv = PL.padd(deriv, {tuple(lst): c * n})
+    eb = prog.body(SP + "CubicBezier::<T>::eval")
+    req(polys["eval"] == bern, "E-agree", "eval", eb.where(), "CubicBezier::eval(t) = sum C(3,k) t^k (1-t)^(3-k) p_k for 0 < t < 1")
+    req(polys["fast_eval"] == bern, "E-agree", "fast_eval", prog.body(SP + "CubicBezier::<T>::fast_eval").where(), "CubicBezier::fast_eval(t) = the Bernstein form = eval(t) for 0 < t < 1")
+    req(polys["tangent"] == deriv, "E-tangent", "tangent", prog.body(SP + "CubicBezier::<T>::tangent").where(), "CubicBezier::tangent(t) = d/dt of the Bernstein form")
+    # ---- spline
+    seg_b = prog.body(SP + "BezierSpline::<T>::segment")
+    n_scen = 0
+    for segs in (1, 2, 3, 4):
+        npts = 3 * segs + 1
+        for j in range(segs + 1):
+            at_end = (j == segs)
+            tv = ("f", 1.0) if at_end else t
+            sp = ("adt", ADT, "BezierSpline", [("array", [S.sym("p%d" % i) for i in range(npts)])])
+            fl = lambda it_, args, c, d, j=j: ("f", float(j))  # noqa: E731
+            pos = lambda op, a_, b_, j=j, segs=segs: inside(op, a_, b_)  # noqa: E731  (t strictly inside (0, 1) unless it is the constant 1)
+            it = S.interp(prog, oracle=pos, models={"$f32>::floor": fl, "$::floorf": fl, "$float::mm::floor": fl, "$float::fallback::floor": fl, "$float::libm::floor": fl})
+            it.float_to_int = lambda v, to, j=j: j if not (isinstance(v, tuple) and v[0] == "f") else None
+            try:
+                r = A.deref_all(it, it.call_body(seg_b, [S.ref_to(sp), tv], env={"T": "f32"}))
+                u, pts = A.deref_all(it, r[1][0]), A.deref_all(it, r[1][1])
+                names = [p_[1] for p_ in pts[1]]
+
+                def unrem(v):
+                    """x % m with x/m = t*n is x - floor(t*n)*m = x - j*m in this scenario (real arithmetic)"""
+                    if not (isinstance(v, tuple) and v[0] == "symop"):
+                        return v
+                    if v[1] == "Rem":
+                        x_, m_ = unrem(v[2]), unrem(v[3])
+                        rx, rm = S.to_ratio(x_), S.to_ratio(m_)
+                        tn_ = ({(): Fraction(segs)} if at_end else {("t",): Fraction(segs)}, {(): Fraction(1)})
+                        if S.ratio_eq((PL.pmul(rx[0], rm[1]), PL.pmul(rx[1], rm[0])), tn_):
+                            return ("symop", "Sub", x_, ("symop", "Mul", ("f", float(j)), m_))
+                        return v
+                    return (v[0], v[1]) + tuple(unrem(x_) if isinstance(x_, tuple) else x_ for x_ in v[2:])
+                n_, d_ = S.to_ratio(unrem(u))
+                if set(d_) != {()}:
+                    raise S.NotPolynomial("local parameter is a genuine rational function")
+                up = {m_: c_ / d_[()] for m_, c_ in n_.items()}
+                if any(sy.startswith("?") for m_ in up for sy in m_):
+                    raise S.NotPolynomial("local parameter contains an operation outside the ring domain: %s" % [m_ for m_ in up if any(sy.startswith("?") for sy in m_)][:1])
+            except (A.Undecided, A.Panic, S.NotPolynomial, IndexError, TypeError) as e:
+                raise common.Infra("C17.S-seg: BezierSpline::segment could not be evaluated for %d segments, floor(t*n) = %d (%s)" % (segs, j, e))
+            n_scen += 1
+            i_want = min(j, segs - 1)
+            ok_pts = names == ["p%d" % (3 * i_want + k) for k in range(4)]
+            tn = {(): Fraction(segs)} if at_end else {("t",): Fraction(segs)}
+            ok_u = PL.padd(up, {(): Fraction(i_want)}) == tn
+            what = "%d segment(s), %s" % (segs, "t = 1" if at_end else "floor(t*n) = %d" % j)
+            rep.inst("C17.S-seg", "segment(): %s -> points %s, local parameter %s: %s" % (what, names, up, "consistent" if ok_pts and ok_u else "INCONSISTENT"), config=cfg)
+            if not ok_pts:
+                rep.violate("C17.S-seg", "S-seg|points", seg_b.where(), "BezierSpline::segment with %s returns control points %s instead of p%d..p%d" % (what, names, 3 * i_want, 3 * i_want + 3), config=cfg)
+            if not ok_u:
+                rep.violate("C17.S-seg", "S-seg|parameter", seg_b.where(),
+                            "BezierSpline::segment with %s returns the local parameter %s for segment %d: segment index + local parameter must equal t*n "
+                            "(the curve would jump or stall at that position)" % (what, up, i_want), config=cfg)
+    rep.floor("C17.S-seg.%s" % cfg, n_scen, 14, "segment() scenarios")
+    # S-eval: eval = CubicBezier(segment(t).1).fast_eval(segment(t).0) / tangent likewise (provenance)
+    for fn, inner in (("eval", ("fast_eval", "eval")), ("tangent", ("tangent",))):
+        b = prog.body(SP + "BezierSpline::<T>::" + fn)
+        ok = False
+        for fb in prog.family(b.path):
+            sl = T.Slicer(fb)
+            for bi, tcall in fb.calls(lambda c: any(c["path"].endswith("CubicBezier::<T>::" + x) for x in inner)):
+                recv = T.strip(sl.operand(tcall["args"][0]), sites=True, refs=True)
+                par = T.strip(sl.operand(tcall["args"][1]), sites=True, refs=True)
+                from_seg = lambda q: T.contains(q, lambda r_: r_[0] == "call" and r_[1].split(" => ")[0].endswith("BezierSpline::<T>::segment"))  # noqa: E731
+                f_recv, f_par = T.fields_in(recv), T.fields_in(par)
+                ok = from_seg(recv) and from_seg(par) and "1" in [f.rsplit(".", 1)[-1] for f in f_recv] and "0" in [f.rsplit(".", 1)[-1] for f in f_par]
+        req(ok, "S-eval", fn, b.where(), "BezierSpline::%s evaluates CubicBezier(segment(t).1) at segment(t).0" % fn)
+
+
 def check(rep, args):
     configs = ["ws"] if rep.tier == "quick" else common.ALL_CONFIGS
     rep.configs = configs
     for cfg in configs:
-        check_config(rep, facts.program(cfg))
+        rep.guard(check_config, rep, facts.program(cfg))
+        rep.guard(algebra_rules, rep, facts.program(cfg))
     cov = {
         "explanation": "syntactic ranking argument for do_approx (decreasing, zero-guarded depth budget; sole recursion), constructor invariant, "
                        "control dependence of the only push, interval bookkeeping, and abstract interpretation of step() over orderings",
         "evaluations": len(rep.instances),
         "distinct_nontrivial": len({i["what"] for i in rep.instances}),
-        "rules": ["R-term", "R-ctor", "R-leaf", "R-ends", "E-exact"],
+        "rules": ["R-term", "R-ctor", "R-leaf", "R-ends", "E-exact", "E-agree", "E-tangent", "S-seg", "S-eval"],
     }
-    return "other", cov, ["the caller's `halt` closure terminates", "evaluator agreement, tangents, convex hull and continuity are numeric and not decided"]
+    return "other", cov, ["the caller's `halt` closure terminates", "identities hold over the reals: float rounding of the evaluators and of t*n at joins is not decided"]
